@@ -1,7 +1,6 @@
 package main
 
 import (
-	"encoding/json"
 	"fmt"
 	"math"
 	"os"
@@ -85,7 +84,7 @@ func run(repo, dir string, seed uint64, tier string, nprog, nwild int, keep bool
 	if nprog < 0 {
 		nprog = 0
 	} else if nprog == 0 {
-		nprog = 8
+		nprog = 5
 		if tier == "thorough" {
 			nprog = 40
 		}
@@ -177,7 +176,7 @@ func run(repo, dir string, seed uint64, tier string, nprog, nwild int, keep bool
 	}
 	// ---- thriftgo-only suites: reject + text on programs that need not compile
 	if nwild < 0 {
-		nwild = 40
+		nwild = 30
 		if tier == "thorough" {
 			nwild = 400
 		}
@@ -194,6 +193,16 @@ func run(repo, dir string, seed uint64, tier string, nprog, nwild int, keep bool
 			return 2
 		}
 		lines = append(lines, ls...)
+	}
+	// ---- literal suite and the string-literal defects
+	nlit := 400
+	if tier == "thorough" {
+		nlit = 4000
+	}
+	lines = append(lines, literalOps(r, nlit, out)...)
+	if err := stringDefects(b.Thriftgo, work, out); err != nil {
+		fmt.Println("ERROR:", err)
+		return 2
 	}
 	var send []string
 	for _, l := range lines {
@@ -241,8 +250,19 @@ func run(repo, dir string, seed uint64, tier string, nprog, nwild int, keep bool
 	}
 	fmt.Printf("c06: seed %d, %d units (%d unusable), %d op lines, %d oracle failures, %.1fs total\n",
 		seed, len(b.Units), bad, len(lines), fails, time.Since(t0).Seconds())
-	_ = replay
-	if fails > 0 {
+	if replay != "" {
+		found := false
+		for _, f := range out.Oracle {
+			if f.Key == replay {
+				found = true
+				fmt.Printf("REPLAY %s: still failing: %v\n", replay, f.Observed)
+			}
+		}
+		if !found {
+			fmt.Printf("REPLAY %s: no longer failing\n", replay)
+		}
+	}
+	if fails > 0 || len(out.Oracle) > 0 {
 		return 1
 	}
 	return 0
@@ -264,6 +284,11 @@ func firstLines(s string, n int) string {
 }
 
 func unitInput(ud *unitData, op string) map[string]interface{} {
+	if ud.defect != "" {
+		// the replay of a known defect must not depend on where in the batch the unit ended up
+		return map[string]interface{}{"tag": ud.u.Tag, "options": ud.u.Options, "idl": ud.prog.Render(),
+			"op": strings.Replace(op, " "+ud.u.Key+" ", " u ", 1), "cmd": "thriftgo -r -g go:" + strings.Join(ud.u.Options, ",") + " " + ud.prog.Files[0].Path}
+	}
 	return map[string]interface{}{"unit": ud.u.Key, "tag": ud.u.Tag, "options": ud.u.Options, "idl": ud.prog.Render(), "op": op,
 		"cmd": strings.Join(ud.u.Cmd, " ")}
 }
@@ -487,7 +512,3 @@ func checkG(st *idlgen.SStruct, v *values.Value, ans string) string {
 	return ""
 }
 
-func jsonString(v interface{}) string {
-	b, _ := json.Marshal(v)
-	return string(b)
-}
